@@ -362,6 +362,9 @@ type NSpec struct {
 	// input key whose value is such a map). What the node computes does not depend on it.
 	TOut bool `json:"tout,omitempty"`
 	TIn  bool `json:"tin,omitempty"`
+	// Spare: an array-backed output stream is built over a slice with that much spare capacity
+	// (a slice grown with append); copies of an array-backed stream share the slice
+	Spare int `json:"spare,omitempty"`
 }
 
 // the type the consumers of the node see
@@ -458,7 +461,7 @@ func (r *recorder) snapshot() map[int][]string {
 
 // ---------------------------------------------------------------- typed streams
 
-func mkStream[O any](items []sitem, pipe int) *schema.StreamReader[O] {
+func mkStream[O any](items []sitem, pipe int, spare int) *schema.StreamReader[O] {
 	hasErr := false
 	for _, it := range items {
 		if it.err != nil {
@@ -466,9 +469,9 @@ func mkStream[O any](items []sitem, pipe int) *schema.StreamReader[O] {
 		}
 	}
 	if pipe == 0 && !hasErr {
-		arr := make([]O, len(items))
-		for i, it := range items {
-			arr[i] = conv[O](it.v)
+		arr := make([]O, 0, len(items)+spare)
+		for _, it := range items {
+			arr = append(arr, conv[O](it.v))
 		}
 		return schema.StreamReaderFromArray(arr)
 	}
@@ -540,7 +543,7 @@ func natives[I, O any](sp *NSpec, rec *recorder) (compose.Invoke[I, O, any], com
 			if err != nil {
 				return nil, err
 			}
-			return mkStream[O](emit(sp, y), sp.Pipe), nil
+			return mkStream[O](emit(sp, y), sp.Pipe, sp.Spare), nil
 		}
 	}
 	if sp.Nat[2] {
